@@ -59,7 +59,8 @@ PINS = [
     'mesonbuild.backend.ninjabackend:NinjaBackend.get_introspection_data',
     'mesonbuild.backend.ninjabackend:NinjaBackend.create_target_source_introspection',
     'mesonbuild.utils.core:EnvironmentVariables',
-    'mesonbuild.interpreter.interpreter:Interpreter.get_build_def_files',
+    'mesonbuild.interpreter.interpreter:Interpreter.get_build_def_files', 'mesonbuild.interpreter.interpreter:Interpreter.do_subproject',
+    'mesonbuild.interpreter.interpreter:Interpreter._do_subproject_meson', 'mesonbuild.interpreterbase.interpreterbase:InterpreterBase._load_option_file',
 ]
 TRUSTED = [
     'extraction of flat records from the JSON / pickle files (harness/c15.py extract_*), os.path.normpath for making paths absolute',
@@ -1289,6 +1290,7 @@ CORPUS_VARIANTS: T.Dict[str, T.List[T.Tuple[str, T.List[str], str]]] = {
                    ('dirs', ['--prefix=/opt/p', '--includedir=inc', '--datadir=/abs/share', '--libdir=lib64', '--bindir=b', '--libexecdir=lx',
                              '--sysconfdir=/etc/x', '--localstatedir=var2', '--sbindir=sb', '--mandir=mm'], 'none'),
                    ('flat-static', ['--layout=flat', '-Ddefault_library=static', '--includedir=include/deeper/inc'], 'native')],
+    'optfail': [('default', [], 'none'), ('flat-native', ['--layout=flat'], 'native')],
     'instdup': [('cross+native', ['--prefix=/usr'], 'cross+native'), ('default', [], 'none')],
     'mixed': [('default', [], 'none'), ('cross+native', ['-Db_ndebug=true'], 'cross+native'), ('cross', [], 'cross'), ('ndebug', ['-Db_ndebug=true'], 'none'), ('release', ['-Dbuildtype=release', '-Db_ndebug=if-release'], 'none'),
               ('std', ['-Dcpp_std=c++17', '-Dc_std=c11', '-Db_ndebug=true', '-Dwarning_level=3'], 'none'),
